@@ -27,6 +27,11 @@ RICH = [
     ("empty", ""),
     ("only_heading", "# Title"),
     ("def_list_like", "Term\n: not a def list\n\n- a\n\n  b\n\n- c\n"),
+    ("olist_digits", "8. eighth\n9. ninth item\n\n10. tenth first paragraph\n\n    tenth second paragraph\n\n    ```\n    code in ten\n    ```\n11. eleventh\n    - nested in eleven\n"),
+    ("olist_99", "99. ninety-nine\n\n    second para of 99\n100. hundred\n\n     second para of 100\n"),
+    ("soft_then_hard", "Well... first line\nsecond line\\\nthird line  \nfourth \"quoted\" line\nfifth\n\n- item first\n  item second\\\n  item third\n"),
+    ("escaped_numerals", "see section\n1\\. for the details and 2\\) too\n\n3\\. starts a paragraph\n\n- 4\\. in an item\n"),
+    ("table_then_escape", "| A | B |\n|---|---|\n| x | y |\n\n1\\. not a list\n\n- 2\\. text\n"),
 ]
 
 
